@@ -644,7 +644,7 @@ class ForestWorld:
                 out.append("+".join(r["names"]) + "=" + (r["ck"] or "n") + "!absent")
         return ",".join(out)
 
-    def observe(self, new=(), make_all=False, strict=False, build_new=True):
+    def observe(self, new=(), make_all=False, strict=False, build_new=True, build_all=True):
         """-> (key, tags, extra): tags[m] = tag of m.f for every loaded module.
         Newly loaded modules get the full battery: ill-typed call into f and into
         the dataclass D (must raise iff instrumented with a real checker), and a
@@ -654,9 +654,11 @@ class ForestWorld:
         strict=True they too get the raising ill-typed call.  make_all adds the
         probes of the definitions made at CALL time - make() (a def in a function
         body) and build() (a class in a function body, its method, a def inside
-        that method), each called well-typed and (spy-less ones, and all of them
-        with strict=True) ill-typed - for every module;
-        build_new=False leaves build() out for the newly loaded ones."""
+        that method), each called well-typed and - the spy-less ones, and with
+        strict=True make()'s def under a spy as well (both factories reject an
+        ill-typed call at their first checked def) - ill-typed, for every module;
+        build_new=False leaves build() out for the newly loaded ones, build_all=False
+        for the others (make() is always probed when make_all is set)."""
         tags, extra = {}, {}
         for m in self.loaded():
             mod = sys.modules[m]
@@ -669,7 +671,9 @@ class ForestWorld:
                 else:
                     tags[m] = probe_callable(mod.f, well_typed_first=not strict)
                     if make_all:
-                        extra[m] = dict(make=probe_factory(mod.make, strict), build=probe_factory(mod.build, strict))
+                        extra[m] = dict(make=probe_factory(mod.make, strict))
+                        if build_all:
+                            extra[m]["build"] = probe_factory(mod.build)
             except Exception as e:  # noqa: BLE001
                 tags[m] = f"probe-exc:{type(e).__name__}"
         key = self.hooks_key() + "|" + ";".join(f"{m}:{tags[m]}" for m in C11_MODULES if m in tags)
